@@ -1,6 +1,6 @@
 //! C08 — exact matchers. One run = one matcher object (algo, pattern);
 //! events: `new`, then `find_all` on several texts (same object).
-use crate::{bytes, usizes, Log, Rng};
+use bio_verif_harness::{bytes, usizes, Log, Rng};
 use bio::pattern_matching::{bndm::BNDM, bom::BOM, horspool::Horspool, kmp::KMP, shift_and::ShiftAnd};
 use serde_json::json;
 
@@ -163,4 +163,8 @@ pub fn drive(log: &mut Log) {
             }
         }
     }
+}
+
+fn main() {
+    bio_verif_harness::run(drive)
 }
